@@ -8,9 +8,18 @@ add('C01', 'property-based differential testing against a reference evaluator + 
     'modules enumerated completely against the same reference tables.',
     TRUST)
 
-_PENDING = ['C02', 'C03', 'C04', 'C05', 'C06', 'C07', 'C08', 'C09', 'C10', 'C11', 'C12', 'C13', 'C14',
-            'C15', 'C16', 'C17', 'C18', 'C19', 'C20']
-NOT_APPLICABLE = [{'property_id': p, 'reason': 'check not built yet (work in progress; the technique applies, see DESIGN.md)'}
-                  for p in _PENDING if p not in CHECKS]
-NOTES = ('All checks: ./check <ID> --tier quick|thorough ; exit 0 held / 1 VIOLATION / 2 harness error. '
-         'Known findings and fixed defects: known_findings.json.')
+
+
+add('C05', 'property-based testing: exactness of the CNF reduction decided row by row with an own DPLL against the reference evaluator',
+    'For generated circuits and output selections, CNF + every total input assignment is decided by an independent '
+    'complete DPLL and compared both ways (SAT iff outputs true, unique extension, gate variables carry evaluated '
+    'values, input i = variable i+1); the satisfiability query and its model are checked against the reference table.',
+    TRUST + ' UNSAT answers of the z3-backed pysat stand-in are trusted only for is_circuit_satisfiable.')
+add('C13', 'property-based differential testing of the miter against row-wise inequality of reference tables',
+    'Generated circuit pairs (incl. single output, shared labels, outputs that are inputs / repeated); miter compared on '
+    'all 2^n rows with the reference difference table by two evaluators and by the SAT query; operands snapshotted.',
+    TRUST)
+add('C20', 'property-based testing with a validity predicate over recorded traversal event traces',
+    'Generated DAGs x start sets x DFS/BFS x directions x hook subsets: all order/coverage predicates of the statement '
+    'checked on the recorded trace against own reachability; cyclic bench texts decide the cycle check both ways.',
+    TRUST)
